@@ -64,7 +64,7 @@ package olla
 //@ func (s *Service) streamResponse
 //@   property C18 C02
 //@   safety
-//@   requires s != nil && s.configuration != nil
+//@   requires s != nil && s.BaseProxyComponents != nil && s.configuration != nil
 //@   requires w != nil
 //@   requires resp != nil && resp.Body != nil
 //@   requires rlog != nil
@@ -77,12 +77,12 @@ package olla
 //@ func (s *Service) handleClientDisconnect
 //@   property C18
 //@   safety
-//@   requires s != nil && state != nil && rlog != nil
+//@   requires s != nil && s.BaseProxyComponents != nil && state != nil && rlog != nil
 //@   modifies state.clientDisconnected, state.disconnectTime
 //@ func (s *Service) checkContexts
 //@   property C18 C02
 //@   safety
-//@   requires s != nil && s.configuration != nil && state != nil && rlog != nil && readDeadline != nil
+//@   requires s != nil && s.BaseProxyComponents != nil && s.configuration != nil && state != nil && rlog != nil && readDeadline != nil
 //@   modifies state.clientDisconnected, state.disconnectTime
 //@   ensures !errorsAs(res, "*core.ResponseStartedError") && !errorsIs(res, core.ErrCircuitOpen)
 
@@ -96,7 +96,7 @@ package olla
 
 //@ func (s *Service) proxyToSingleEndpoint
 //@   property C01 C02 C04 C15 C19
-//@   requires s != nil && s.configuration != nil && w != nil && rlog != nil && r != nil && r.URL != nil && endpoint != nil && endpoint.URL != nil && stats != nil
+//@   requires s != nil && s.BaseProxyComponents != nil && s.configuration != nil && w != nil && rlog != nil && r != nil && r.URL != nil && endpoint != nil && endpoint.URL != nil && stats != nil
 //@   requires !ghost(w).started && ghost(w).hdr != nil && breakersOK(s)
 //@   uses rse_not_circuit
 //@   modifies *
